@@ -1,6 +1,7 @@
 #![allow(clippy::all)]
 #![allow(dead_code)]
 mod core;
+mod c13;
 mod c14;
 mod c15;
 
@@ -57,6 +58,7 @@ fn main() {
     silence_panics();
     let ctx = Ctx::new(&id, tier, filter);
     let code = match id.as_str() {
+        "C13" => c13::run(&ctx),
         "C14" => c14::run(&ctx),
         "C15" => c15::run(&ctx),
         _ => {
